@@ -133,8 +133,9 @@ def run_crypto_fn(fname, extra_assume=None):
     selfo = crypto_self(ex, mod, struct)
     args = [Ptr(selfo, bv(0, 64))] + [Ptr(ex.new_obj("pyarg%d" % i, bv(0, 64)), bv(0, 64)) for i in range(nargs - 1)]
     ex.extra_assume = extra_assume
+    arr0 = selfo.arr
     paths = ex.run(fname, args, [selfo])
-    return ex, paths, {"self": selfo}
+    return ex, paths, {"self": selfo, "self_arr0": arr0, "mod": mod, "struct": struct}
 
 
 # ----------------------------------------------------------------------------
